@@ -25,6 +25,7 @@ type histParams struct {
 	Late        bool // a second driver sends a late message after quiescence (probe)
 	WaitCtx     bool // drivers wait on every stop context
 	Bystander   bool
+	Child       bool   // incarnation 1 spawns a child in its Started handler
 	StopPanics  bool   // the receiver panics (once) while handling Stopped
 	LC          string // lifecycle handlers that panic once: comma separated "<incarnation><I|S>", e.g. "2S" = Started of incarnation 2
 }
@@ -49,6 +50,9 @@ func (hp histParams) String() string {
 	}
 	if hp.StopPanics {
 		lc += "stoppanics"
+	}
+	if hp.Child {
+		lc += "child"
 	}
 	return fmt.Sprintf("%s_r%dd%dmode%dmw%d%s", hp.Hist, hp.MaxRestarts, d, hp.Mode, hp.NMW, lc)
 }
@@ -111,6 +115,9 @@ func (h *histRun) behave(k *Kit, c *actor.Context, inc int) {
 		if h.hp.lcFails(inc, 'S') && !h.lcDone[fmt.Sprint(inc, "S")] {
 			h.lcDone[fmt.Sprint(inc, "S")] = true
 			panic(fmt.Sprintf("Started of incarnation %d", inc))
+		}
+		if h.hp.Child && inc == 1 {
+			c.SpawnChild(k.Producer("K", nil), "kid", actor.WithID("1"))
 		}
 		if h.hp.Mode == 0 && !h.issued {
 			h.issued = true
@@ -487,6 +494,21 @@ func histTail(h *histRun, ref histRef, ended bool, count map[int]int) []vsched.V
 			vs = append(vs, V("deadletter/late-send-not-dead-lettered", "history %s: send after termination produced %d dead letters; events %v", hp.Hist, len(dl), k.Events()))
 		}
 	}
+	if hp.Child {
+		kidReg := k.E.Registry.GetPID("a/1/kid", "1") != nil
+		kidStopped := 0
+		for _, e := range k.Recv("K") {
+			if e.Msg == "Stopped" {
+				kidStopped++
+			}
+		}
+		switch {
+		case ended && (kidReg || kidStopped != 1):
+			vs = append(vs, V("children/child-survives-terminated-parent", "history %s: the actor is gone but its child is registered=%v and handled Stopped %d times; log: %s", hp, kidReg, kidStopped, k.LogString()))
+		case !ended && (!kidReg || kidStopped != 0):
+			vs = append(vs, V("children/child-stopped-although-parent-lives", "history %s: child registered=%v, Stopped %d times; log: %s", hp, kidReg, kidStopped, k.LogString()))
+		}
+	}
 	if hp.Bystander {
 		if b := userMsgs(k.Recv("B")); len(b) != 1 {
 			vs = append(vs, V("containment/bystander-affected", "bystander received %d messages, want 1", len(b)))
@@ -659,6 +681,14 @@ func init() {
 			h  string
 		}{{0, "1S", "m"}, {0, "1I", "m"}, {1, "1S,2S", "m"}, {1, "2S", "Xm"}, {1, "2I", "mXm"}, {2, "2S,3S", "Xmm"}} {
 			p := histParams{Hist: lc.h, MaxRestarts: lc.r, Mode: mode, Late: true, Bystander: true, LC: lc.lc}
+			vq = append(vq, p)
+			vt = append(vt, p)
+		}
+		for _, hc := range []struct {
+			r int
+			h string
+		}{{0, "X"}, {0, "mX"}, {1, "XmX"}, {1, "xX"}} {
+			p := histParams{Hist: hc.h, MaxRestarts: hc.r, Mode: mode, Late: true, Child: true}
 			vq = append(vq, p)
 			vt = append(vt, p)
 		}
